@@ -262,6 +262,67 @@ def t_chain_commons(E, preserve_all, new_size):
     E.prove((len(fns._fn_dict) == 0) == (not preserve_all), 'DEF FN survive only with ALL')
 
 
+def t_functions_cleared(E, called_before):
+    """UserFunctionManager.clear (CLEAR, RUN, NEW, CHAIN without ALL): afterwards no user function can be
+    called - also one that was called before the reset (history: define, call, clear, call)."""
+    from pcbasic.basic.parser import userfunctions
+    class _Mem(object):
+        _pyvc_trusted = True
+        def complete_name(self, name):
+            return name if name[-1:] in (b'$', b'%', b'!', b'#') else name + b'!'
+    m = object.__new__(userfunctions.UserFunctionManager)
+    r = E.call(userfunctions.UserFunctionManager.__init__, m, _Mem(), None, None)
+    E.prove(not r.raised, 'created')
+    fn = object()
+    m._fn_dict[b'A!'] = fn
+    if called_before:
+        r = E.call(m.get, b'A')
+        E.prove(not r.raised and r.value is fn, 'a defined function is found by the name written at the call')
+    r = E.call(m.clear)
+    E.prove(not r.raised, 'clear never raises')
+    for nm in (b'A', b'A!'):
+        r = E.call(m.get, nm)
+        E.prove(r.is_error(BASICError, error.UNDEFINED_USER_FUNCTION), 'after the reset the function is undefined: Undefined user function')
+
+
+def t_chain_flags(E, merge, preserve_all, commons):
+    """Implementation.chain_: what survives a CHAIN is decided by the arguments of _clear_all - functions only
+    with ALL, OPTION BASE when there are COMMON variables or ALL, the DEFtype table only with MERGE."""
+    from pcbasic.basic import implementation
+    from .C16 import Spy
+    log = []
+    impl = object.__new__(implementation.Implementation)
+    impl.program = Spy('program', log, {'protected': False, 'line_numbers': {10: 1}})
+    class _Itp(object):
+        _pyvc_trusted = True
+        def gather_commons(self):
+            return (set([b'A!']) if commons else set()), set()
+        def clear_stacks_and_pointers(self):
+            pass
+        def jump(self, *a, **kw):
+            pass
+    impl.interpreter = _Itp()
+    impl.memory = Spy('memory', log)
+    impl.files = Spy('files', log)
+    impl.strings = Spy('strings', log)
+    calls = []
+    if E.mode == 'symbolic':
+        E.interp.contracts[implementation.Implementation._clear_all] = lambda I, args, kw: calls.append(dict(kw))
+    else:
+        impl._clear_all = lambda **kw: calls.append(dict(kw))
+    vals = values_env(with_strings=True)
+    name = vals.new_string()
+    E.call(name.from_str, b'PROG')
+    r = E.call(impl.chain_, iter([merge, name, None, preserve_all, None]))
+    E.prove(not r.raised, 'CHAIN proceeds')
+    E.prove(len(calls) == 1, 'everything is reset once')
+    if len(calls) == 1:
+        kw = calls[0]
+        E.prove(bool(kw.get('preserve_functions')) == bool(preserve_all), 'user functions survive only with ALL')
+        E.prove(bool(kw.get('preserve_deftype')) == bool(merge), 'the DEFtype table survives only with MERGE')
+        E.prove(bool(kw.get('preserve_base')) == bool(commons or preserve_all), 'OPTION BASE survives only with COMMON variables or ALL')
+
+
 TASKS = [
     Task('DataSegment.preserve_commons (CHAIN with COMMON / ALL)', t_chain_commons,
          cases=[{'preserve_all': a, 'new_size': n} for a in (False, True) for n in (100, 40, 300)]),
@@ -269,6 +330,9 @@ TASKS = [
     Task('Implementation.new_', t_new),
     Task('Implementation.run_', t_run),
     Task('Interpreter.clear', t_interpreter_clear),
+    Task('UserFunctionManager.clear (no function survives a reset)', t_functions_cleared, cases=[{'called_before': c} for c in (False, True)]),
+    Task('Implementation.chain_ (what _clear_all may keep)', t_chain_flags,
+         cases=[{'merge': m, 'preserve_all': a, 'commons': c} for m in (False, True) for a in (False, True) for c in (False, True)]),
 ]
 
 ASSUMPTIONS = [
